@@ -17,7 +17,7 @@ RULE = (
     "(shape, observed pattern, k, batch set); non-trivial = the batch is non-empty or some sample has fewer than k plates"
 )
 ASSUMPTIONS = ["states are memoised on the set of batch plates (quick: <=9 plates; thorough: always) or on per-sample batch counts (larger shapes)"]
-REQUIRED = {"screens_with_interleaved_plate_ids": {"quick": 60, "thorough": 400}, "holders_not_in_plate_id_order": {"quick": 1000, "thorough": 8000}, "states_checked": {"quick": 3000, "thorough": 20000}, "walk_steps": {"quick": 300, "thorough": 5000}, "multi_sample_refusals": {"quick": 40, "thorough": 250}, "multi_sample_layout_1": {"quick": 6, "thorough": 40}, "batches_revealed_in_place": {"quick": 60, "thorough": 800}}
+REQUIRED = {"walk_steps_with_mostly_posinf_scores": {"quick": 80, "thorough": 1200}, "screens_with_interleaved_plate_ids": {"quick": 60, "thorough": 400}, "holders_not_in_plate_id_order": {"quick": 1000, "thorough": 8000}, "states_checked": {"quick": 3000, "thorough": 20000}, "walk_steps": {"quick": 300, "thorough": 5000}, "multi_sample_refusals": {"quick": 40, "thorough": 250}, "multi_sample_layout_1": {"quick": 6, "thorough": 40}, "batches_revealed_in_place": {"quick": 60, "thorough": 800}}
 
 
 def build_screen(Screen, shape, observed_plates=(), multi=None, multi_where=2, perm=None):
@@ -229,6 +229,13 @@ def run_shard(rec, tier, seed, shard, nshards):
         multi_batch = bool(rng.random() < 0.5)
         for _ in range(2 * tot + 2):
             scores = {p: float(rng.choice([0.0, 1.0, 2.0, float("-inf"), rng.normal()])) for p in unobserved}
+            if rng.random() < 0.3:
+                # overflowed scores: +inf on most plates (often on every plate the policy allows), so that the choice
+                # is made among equal +inf values
+                for p in unobserved:
+                    if rng.random() < 0.8:
+                        scores[p] = float("inf")
+                rec.count("walk_steps_with_mostly_posinf_scores")
             w = {"shape": list(shape), "k": k, "observed": list(observed), "batch": list(batch), "history": trace[-12:]}
             try:
                 arr = bool(rng.random() < 0.5)
